@@ -168,8 +168,8 @@ func init() {
 				core.FailStops{Fn: sq + "Push", Callee: []string{sq + "Exist", "common/listmap.(*ListMap).Exist"}, Fail: core.OTrue, Idx: -1, Forbidden: core.CallSink("common/listmap.(*ListMap).Push"), Min: 1, Name: "Exist(hash)=true"}.Check(r)
 				ai := mp + "(*AccountTxIndex)."
 				maxper := core.IsObj(mp + "AccountTxIndex.maxperaccount")
-				core.RejectWhen{Fn: ai + "Push", Name: "sender size >= maxperaccount", L: core.Not(core.Mentions(mp + "AccountTxIndex.maxperaccount")), R: maxper, Rel: token.GEQ, Sentinel: "types.ErrManyTx"}.Check(r)
-				core.ReturnsRel{Fn: ai + "CanPush", Name: "sender size < maxperaccount", L: core.Not(core.Mentions(mp + "AccountTxIndex.maxperaccount")), R: maxper, Rel: token.LSS}.Check(r)
+				core.RejectWhen{Fn: ai + "Push", Name: "sender size >= maxperaccount", L: core.Not(core.MentionsDirect(mp + "AccountTxIndex.maxperaccount")), R: maxper, Rel: token.GEQ, Sentinel: "types.ErrManyTx"}.Check(r)
+				core.ReturnsRel{Fn: ai + "CanPush", Name: "sender size < maxperaccount", L: core.Not(core.MentionsDirect(mp + "AccountTxIndex.maxperaccount")), R: maxper, Rel: token.LSS}.Check(r)
 				core.RejectWhen{Fn: mpm + "checkTx", Spec: &core.FlowSpec{Nodes: []core.NodeGen{msgRejectGen()}}, Name: "TxNumOfAccount(from) >= MaxTxNumPerAccount",
 					L: core.CallsAny(mpm+"TxNumOfAccount"), R: core.Mentions("types.Mempool.MaxTxNumPerAccount"), Rel: token.GEQ, RejectBy: rejectedBy}.Check(r)
 				core.LiveReturn{Fn: mpm + "checkTx", Sentinels: []string{"types.ErrManyTx"}}.Check(r)
@@ -179,8 +179,8 @@ func init() {
 					Calls: []core.CallGuard{called("block-txs-removed", mpm+"RemoveTxsOfBlock"), called("expired-removed", mpm+"removeExpired")},
 					// decided for a non-empty pool (nothing to remove from an empty one)
 					Assume: func(c *core.Ctx, e ast.Expr) core.Tri {
-						if op, ok := core.CmpAtom(c, e, core.CallsAny(mpm+"Size"), core.IsConstInt(0)); ok && op == token.GTR {
-							return core.True
+						if t := core.AssumeRel(core.CallsAny(mpm+"Size"), token.GTR, core.IsConstInt(0), core.True)(c, e); t != core.Unknown {
+							return t
 						}
 						return core.Unknown
 					},
@@ -238,7 +238,7 @@ func init() {
 				nSend := 0
 				for _, f := range r.W.AllFuncs(pkg) {
 					c := f.Ctx()
-					ast.Inspect(f.Body(), func(x ast.Node) bool {
+					core.InspectBody(f, func(x ast.Node) bool {
 						ss, ok := x.(*ast.SendStmt)
 						if !ok {
 							return true
@@ -352,13 +352,13 @@ func init() {
 				// eth nonce
 				core.RejectWhen{Fn: mpm + "evmTxNonceCheck", Name: "tx nonce < current nonce", L: core.CallsAny("types.(*Transaction).GetNonce"), R: core.CallsAny(mpm + "getCurrentNonce"), Rel: token.LSS, Sentinel: "types.ErrLowNonce"}.Check(r)
 				core.RejectWhen{Fn: mpm + "evmTxNonceCheck", Name: "a pending tx of the sender has the same nonce",
-					L: core.And(core.CallsAny("types.(*Transaction).GetNonce"), core.Not(core.Mentions("param:0"))), R: core.And(core.CallsAny("types.(*Transaction).GetNonce"), core.Mentions("param:0")), Rel: token.EQL}.Check(r)
+					L: core.And(core.CallsAny("types.(*Transaction).GetNonce"), core.Not(core.MentionsDirect("param:0"))), R: core.And(core.CallsAny("types.(*Transaction).GetNonce"), core.Mentions("param:0")), Rel: token.EQL}.Check(r)
 			}),
 			rule("R22e", "the per-sender limit is enforced before anything is inserted (txCache.Push)", 3, func(r *Run) {
 				sp := spec(isTrue("can-push", mp+"(*AccountTxIndex).CanPush"), errNil("queued", mp+"QueueCache.Push"))
 				core.Dominated{Fn: mpc + "Push", Spec: sp, Sink: core.CallSink(mp+"QueueCache.Push"), Need: []Fact{"can-push"}, Min: 1}.Check(r)
 				core.Dominated{Fn: mpc + "Push", Spec: sp, Sink: core.CallSink(mp+"(*AccountTxIndex).Push"), Need: []Fact{"can-push", "queued"}, Min: 1}.Check(r)
-				core.ReturnsRel{Fn: mp + "(*AccountTxIndex).CanPush", Name: "sender size < maxperaccount", L: core.Not(core.Mentions(mp + "AccountTxIndex.maxperaccount")),
+				core.ReturnsRel{Fn: mp + "(*AccountTxIndex).CanPush", Name: "sender size < maxperaccount", L: core.Not(core.MentionsDirect(mp + "AccountTxIndex.maxperaccount")),
 					R: core.IsObj(mp + "AccountTxIndex.maxperaccount"), Rel: token.LSS}.Check(r)
 			}),
 			rule("R22d", "rejection reasons are live", 9, func(r *Run) {
@@ -406,8 +406,8 @@ func init() {
 					if isMapIdx(c, e) {
 						return core.True
 					}
-					if op, ok := core.CmpAtom(c, e, lenOf(core.IsObj("param:1")), core.IsConstInt(0)); ok && op == token.GTR {
-						return core.True
+					if t := core.AssumeRel(lenOf(core.IsObj("param:1")), token.GTR, core.IsConstInt(0), core.True)(c, e); t != core.Unknown {
+						return t
 					}
 					return core.Unknown
 				}}}.Check(r)
@@ -422,8 +422,8 @@ func init() {
 				// exclusion keyed by the entry's hash
 				// count bound stops the walk
 				core.RejectWhen{Fn: cb, Spec: &core.FlowSpec{Assume: func(c *core.Ctx, e ast.Expr) core.Tri {
-					if op, ok := core.CmpAtom(c, e, core.IsObj("param:0"), core.IsConstInt(0)); ok && op == token.GTR {
-						return core.True
+					if t := core.AssumeRel(core.IsObj("param:0"), token.GTR, core.IsConstInt(0), core.True)(c, e); t != core.Unknown {
+						return t
 					}
 					return core.Unknown
 				}}, Name: "len(txs) == count stops the walk", L: lenOf(core.AnyExpr), R: core.Mentions("param:0"), Rel: token.EQL}.Check(r)
@@ -449,7 +449,7 @@ func init() {
 				c := f.Ctx()
 				var nonceLoop, inputOrder bool
 				var loopPos, ordPos token.Pos
-				ast.Inspect(f.Body(), func(x ast.Node) bool {
+				core.InspectBody(f, func(x ast.Node) bool {
 					switch s := x.(type) {
 					case *ast.ForStmt:
 						// for nonce := currentNonce; ; nonce++ { if tx, ok := txs[nonce]; ok { merge = append(merge, tx) } else { break } }
